@@ -22,6 +22,8 @@ type Op struct {
 	K    string `json:"k,omitempty"`
 	V    string `json:"v,omitempty"`
 	Many int    `json:"many,omitempty"` // set: additionally set this many filler keys
+	// Stale (renew): Set(K, V) through the destroyed reference before the new context is taken
+	Stale bool `json:"stale,omitempty"`
 }
 
 type Case struct {
@@ -117,6 +119,12 @@ func gen(t *rapid.T) Case {
 			op.Kind = "reset"
 		case k < 18:
 			op.Kind = "renew"
+			if rapid.IntRange(0, 3).Draw(t, "stale") == 0 {
+				// a write through the reference that was just destroyed, before anybody takes a context from the pool
+				op.Stale = true
+				op.K = genStr(t, "key", keyPool)
+				op.V = genStr(t, "val", edgeValues)
+			}
 		default:
 			// traffic through the library's own users of the pool between two accessor steps
 			op.Kind = "serve"
@@ -349,6 +357,10 @@ func check(c Case, st *rig.Stats) error {
 				classes = append(classes, "renew-nonempty")
 			}
 			ctx.Destroy()
+			if op.Stale {
+				ctx.Set(op.K, op.V)
+				classes = append(classes, "write-after-destroy-then-renew")
+			}
 			ctxs[op.Slot] = types.NewContext()
 			models[op.Slot] = map[string]string{}
 			if ctxs[0] == ctxs[1] {
@@ -392,7 +404,7 @@ func check(c Case, st *rig.Stats) error {
 }
 
 var stats = rig.NewStats("C20",
-	"rapid draws a history of Set/Delete/Reset/Destroy+NewContext over two live contexts with keys and values from arbitrary strings, numeric edge cases and numbers padded with runs of zeros of drawn lengths, interleaved with traffic through the library's own users of the context pool (router hit / 404 / 405 / recovered panic, group hit / miss / recovered panic on the group's not-found path, a handler issuing a nested request) after which two fresh contexts must be distinct from each other and from the live ones, empty and independent; all eleven accessors are compared with a map model and strconv after every step. Non-trivial: a value on which at least one of the four strconv parsers fails and at least one succeeds was set, a context was renewed from the pool after being non-empty, or pool traffic ran between accessor steps; distinct by hash of the whole case",
+	"rapid draws a history of Set/Delete/Reset/Destroy+NewContext (a quarter of the renewals write through the destroyed reference before the new context is taken) over two live contexts with keys and values from arbitrary strings, numeric edge cases and numbers padded with runs of zeros of drawn lengths, interleaved with traffic through the library's own users of the context pool (router hit / 404 / 405 / recovered panic, group hit / miss / recovered panic on the group's not-found path, a handler issuing a nested request) after which two fresh contexts must be distinct from each other and from the live ones, empty and independent; all eleven accessors are compared with a map model and strconv after every step. Non-trivial: a value on which at least one of the four strconv parsers fails and at least one succeeds was set, a context was renewed from the pool after being non-empty, or pool traffic ran between accessor steps; distinct by hash of the whole case",
 	"strconv is the trusted reference")
 
 func TestProp(t *testing.T) { rig.RunProp(t, stats, gen, check) }
